@@ -37,6 +37,8 @@ def sha(h):
 
 def gen_tmd(rng, category=None):
     n = rng.choice([0, 1, 2, 3, 5, 9, 64, 300]) if rng.random() < 0.3 else rng.randrange(0, 8)
+    if category is not None:
+        n = rng.randrange(0, 3)          # the sweep over all category words does not need large record tables
     ids = rng.sample(range(1 << 32), n)
     ch = [{'id': ids[j], 'index': rng.choice([j, rng.getrandbits(16)]), 'type': rng.choice([0, 1, 2, 4, 0x4000, 0x8000, 0x8001, 0xC007, 0x4005]),
            'size': rng.choice([0, 1, (1 << 64) - 1, rng.getrandbits(40)]), 'hash': pyenv.rbytes(rng, 32)} for j in range(n)]
